@@ -176,8 +176,8 @@ def parts(tier):
     twins = ('sync', 'async')
     kmax = 4 if tier == 'quick' else 12
     sc = [{'nkeys': n, 'cb': cb, 'maxdata': md, 'twin': t, 'pub_bytes': pb, 'strays': False, 'push': True}
-          for n in range(0, kmax + 1) for cb in (None, 'record', 'raise') for md in (4096, 256 * 1024, 1024 * 1024) for t in twins for pb in (False, True, 'nonascii', 'bytearray')
-          if (md == 1024 * 1024 or n <= 2) and (not pb or n in (1, 2))]
+          for n in range(0, kmax + 1) for cb in (None, 'record', 'raise') for md in (4096, 256 * 1024, 1024 * 1024) for t in twins for pb in (False, True, 'nonascii', 'bytearray', 'empty')
+          if (md == 1024 * 1024 or n <= 2) and (not pb or n in (1, 2) or (pb == 'empty' and n == 3 and md == 1024 * 1024))]
     sc += [dict(x, at_none=True) for x in sc if x['maxdata'] == 1024 * 1024 and not x['pub_bytes'] and 1 <= x['nkeys'] <= 2 and x['cb'] != 'raise']     # auth_timeout_s=None
     sc += [dict(x, maxdata=4 * 1024 * 1024) for x in sc if x['maxdata'] == 1024 * 1024 and not x['pub_bytes'] and x['nkeys'] <= 1 and not x.get('at_none')]   # a device announcing more than the host's own 1 MiB
     # the key collection may be omitted, None, or an empty/non-empty list or tuple: "challenged without keys" covers every empty form
